@@ -118,7 +118,7 @@ func genLog(r *kit.Rng, class string, tier string) *logScenario {
 			}
 		}
 	}
-	var offs []uint64
+	var offs, dups []uint64
 	for o := range rel {
 		offs = append(offs, o)
 	}
@@ -145,7 +145,11 @@ func genLog(r *kit.Rng, class string, tier string) *logScenario {
 			if r.Chance(1, 2) {
 				o := kit.Pick(r, offs)
 				ls.Events = append(ls.Events, eventSpec{Shape: "none", Seed: r.U64() % 100000, Part: part, POff: base + o, WS: ws, WOff: wbase + o + wshift})
+				dups = append(dups, o)
 			}
+		}
+		if len(dups) > 0 && r.Chance(1, 2) {
+			ls.Restart = false // the refused append must not have touched what the PLog event cache holds
 		}
 		if r.Chance(1, 3) {
 			o := kit.Pick(r, offs)
@@ -225,6 +229,13 @@ func genLog(r *kit.Rng, class string, tier string) *logScenario {
 	mk(false)
 	if ls.WLogToo {
 		mk(true)
+	}
+	// single-event reads of the offsets a refused re-append aimed at
+	for _, o := range dups {
+		ls.Reads = append(ls.Reads, &readSpec{WLog: false, ID: uint64(part), Off: base + o, Count: 1})
+		if ls.WLogToo {
+			ls.Reads = append(ls.Reads, &readSpec{WLog: true, ID: ws, Off: wbase + o + wshift, Count: 1})
+		}
 	}
 	// single-event reads in the middle of the appends: offsets appended so far (still there after
 	// the later appends?) and one appended later (nothing yet; on cached backends its absence is cached)
